@@ -118,8 +118,15 @@ def same(a, b):
     return a is b or a == b
 
 
+KEPT = []      # (call index, argument objects, snapshot taken before the call, route dicts before the call) of every call so far
+REUSE = {}     # spec -> the argument objects of its first call: an identical later call passes the SAME objects again
+
+
 def one_call(spec):
     from jesse import research
+    key = json.dumps(spec, sort_keys=True)
+    if key in REUSE:
+        return run_call(spec, *REUSE[key])
     obs = {}
     ex = spec['exchange']
     cfg = {'starting_balance': spec['balance'], 'fee': spec['fee'], 'type': spec['kind'],
@@ -136,6 +143,16 @@ def one_call(spec):
     hp = {'every': spec['hp']} if spec.get('hp') else None
     args = {'config': cfg, 'routes': routes, 'data_routes': droutes, 'candles': candles, 'warmup_candles': warm,
             'hyperparameters': hp}
+    REUSE[key] = (args, obs)
+    return run_call(spec, args, obs)
+
+
+def run_call(spec, args, obs):
+    """one research.backtest call on the given argument objects (possibly the very objects of an earlier identical call)"""
+    from jesse import research
+    obs.clear()
+    cfg, routes, droutes, candles, warm, hp = (args[k] for k in ('config', 'routes', 'data_routes', 'candles', 'warmup_candles',
+                                                                 'hyperparameters'))
     before = copy.deepcopy({k: v for k, v in args.items() if k != 'routes'})
     routes_before = [dict(r) for r in routes]
     out = {'error': None, 'result': None}
@@ -151,6 +168,16 @@ def one_call(spec):
     out['args_unmodified'] = same(before, after) and all(same(a, b) for a, b in zip(routes_before, routes)) \
         and len(routes_before) == len(routes)
     out['observed'] = canon(obs)
+    # purity towards EARLIER calls: no later call may change the argument objects a previous call was given
+    out['earlier_args_modified'] = None
+    for (i, a, b, rb) in KEPT:
+        if a is args:
+            continue
+        now = {k: v for k, v in a.items() if k != 'routes'}
+        if not (same(b, now) and len(rb) == len(a['routes']) and all(same(x, y) for x, y in zip(rb, a['routes']))):
+            out['earlier_args_modified'] = i
+            break
+    KEPT.append((len(KEPT), args, before, routes_before))
     return out
 
 
